@@ -2,7 +2,7 @@
    The ring buffer is represented by its content; the only place the decoder sees the ring's
    geometry — the (first, end) split of Peek(3) — is the adversarial argument k. *)
 From Coq Require Import List NArith ZArith.
-From OAP Require Import Base.Bytes Base.Res Gen.Consts Model.Metadata Model.Header Model.Frame Model.Stream Model.Chunks Proofs.StreamP Proofs.ChunksP Model.Ring Proofs.RingP Proofs.RingWriteP.
+From OAP Require Import Base.Bytes Base.Res Gen.Consts Model.Metadata Model.Header Model.Frame Model.Stream Model.Chunks Proofs.StreamP Proofs.ChunksP Model.Ring Proofs.RingP Proofs.RingWriteP Model.RingFast Proofs.RingFastP.
 Import ListNotations.
 Local Open Scope N_scope.
 
@@ -108,6 +108,19 @@ Proof. exact (ring_history_refines Byte.x00). Qed.
 Theorem C03_ring_new_wf : forall size, (0 < size)%nat ->
   ring_wf (mkRing (repeat Byte.x00 size) size 0 0 true) /\ ring_content (mkRing (repeat Byte.x00 size) size 0 0 true) = [].
 Proof. intros size H. unfold ring_wf; cbn. rewrite repeat_length. auto. Qed.
+(* THE TCP READ LOOP'S FAST PATH (go/client/tcp_conn.go, reading): n > 0 fresh bytes are wrapped with NewWithData, the
+   decoders run on that ring (any sequence of Length / Peek / Retrieve), and the left-over is copied with
+   "first, _ := buffer.PeekAll(); readBuf.Write(first)" - the second slice is dropped.  Nothing is lost: on such a ring
+   the second slice is always empty, the first is exactly what the byte-queue history leaves, and the decoders saw
+   exactly what they would have seen on the queue.  (With a Write in between this fails: fast_path_needs_read_only.) *)
+Theorem C03_fast_path_leftover_complete : forall (d : list Byte.byte) (ops : list (rop Byte.byte)), d <> [] -> forallb is_read_op ops = true ->
+  let g := fst (run_ops (ring_step Byte.x00) (ring_with_data d) ops) in
+  snd (ring_peek_all g) = [] /\ fst (ring_peek_all g) = fst (run_ops content_step d ops) /\
+  snd (run_ops (ring_step Byte.x00) (ring_with_data d) ops) = snd (run_ops content_step d ops).
+Proof. exact (fast_path_leftover_complete Byte.x00). Qed.
+Theorem C03_ring_peek_all_is_content : forall (g : ring Byte.byte), ring_wf g ->
+  fst (ring_peek_all g) ++ snd (ring_peek_all g) = ring_content g.
+Proof. exact ring_peek_all_refines. Qed.
 (* not vacuous: a wrapped ring of 5 cells holding 4 bytes, Peek(3) really is split 2 + 1 *)
 Example C03_ring_wrapped_example :
   let g := mkRing [Byte.x03; Byte.x04; Byte.x00; Byte.x01; Byte.x02] 5 3 2 false in
@@ -122,3 +135,5 @@ Print Assumptions C03_ring_retrieve_drops_content.
 Print Assumptions C03_ring_history_refines.
 Print Assumptions C03_ring_new_wf.
 Print Assumptions C03_ring_write_appends.
+Print Assumptions C03_fast_path_leftover_complete.
+Print Assumptions C03_ring_peek_all_is_content.
